@@ -89,4 +89,14 @@ CLAIMED["C19"] = {"text": "Coq theorems over the mute machine for EVERY timed ev
                  "(~6500 per quick run), compared per instant with the model and with the statement's monitor, in Coq.",
          "note": TB + "virtual clock of synctest = model clock; goxterm rendering and the lock order between goxterm and Shell.wL are outside.",
          "technique": "Coq proof (invariant + closed-form case analysis with lia) + virtual-time differential correspondence judged by vm_compute"}
+CLAIMED["C10"] = {"text": "Coq theorems: with a constant format of plain verbs (one operand per verb) the output is the literal text with every operand "
+                 "inserted whole, for ALL operand bytes (render = weave; each operand occurs verbatim); in a well-formed call-site program no format "
+                 "is computed at run time and every format reaching any printf-style function through any wrapper chain is such a constant. The "
+                 "'every call site in the tree' half is re-decided on EVERY run: translator/fmtgraph type-checks /repo's working tree (go/types), "
+                 "emits all ~160 call sites of fmt.*f, log.*f and the module's own (format, ...any) wrappers incl. closures as Coq data, and coqc "
+                 "proves prog_wf sites = true by vm_compute. Failing-input search and validation of the translator: hostile IDs through the real "
+                 "broker and hostile paths/queries/c2/Host/zoned client addresses through the real mux and handlers; every notice must show the "
+                 "client text verbatim.",
+         "note": TB + "fmt's behaviour on constant plain-verb formats as in Lib/Fmt.render (stdlib); translator trusted (cross-checked by the notice streams).",
+         "technique": "model regenerated from source by a translator + reflective Coq obligation (vm_compute) + soundness theorems; dynamic notice checks as search"}
 NOT_CLAIMED = {}
